@@ -378,7 +378,8 @@ PreludeText ==
   "(defmacro or (fn [& xs] (if (< (count xs) 2) (first xs) (let [r (gensym)] `(let (~r ~(first xs)) (if ~r ~r (or ~@(rest xs))))))))" \o
   "(def every? (fn (pred xs) (cond (empty? xs) true (pred (first xs)) (every? pred (rest xs)) true false)))" \o
   "(def some (fn (pred xs) (if (empty? xs) nil (or (pred (first xs)) (some pred (rest xs))))))" \o
-  "(defmacro and (fn (& xs) (cond (empty? xs) true (= 1 (count xs)) (first xs) true (let (condvar (gensym)) `(let (~condvar ~(first xs)) (if ~condvar (and ~@(rest xs)) ~condvar))))))"
+  "(defmacro and (fn (& xs) (cond (empty? xs) true (= 1 (count xs)) (first xs) true (let (condvar (gensym)) `(let (~condvar ~(first xs)) (if ~condvar (and ~@(rest xs)) ~condvar))))))" \o
+  "(def memoize (fn [f] (let [mem (atom {})] (fn [& args] (let [key (str args)] (if (contains? @mem key) (get @mem key) (let [ret (apply f args)] (do (swap! mem assoc key ret) ret))))))))"
 
 PreludeForms == ReadAll(PreludeText)
 State0 == LET r == EvBody(PreludeForms, 1, 1, BaseState) IN
